@@ -23,4 +23,6 @@ def dateSites : List (String × String) := [("ToDate", "startOfDay"), ("ParseDat
 def startOfDayBody : String := "{ t := time.Date(year, month, day, 0, 0, 0, 0, time.Local) noon := time.Date(year, month, day, 12, 0, 0, 0, time.Local) if t.Day() != noon.Day() { if start, _ := noon.ZoneBounds(); start.After(t) { return start } } return t }"
 /-- byte patterns `DateTime.UnmarshalUT0311L0x` maps to the zero value -/
 def dateTimeZeroPatterns : List String := ["[]byte{0,0,0,0,0,0,0}", "[]byte{0x00,0x01,0x01,0x01,0,0,0}", "[]byte{0x20,0,0,0,0,0,0}"]
+/-- `MarshalUT0311L0x` of these types refuses a value whose digits do not fill exactly this many bytes -/
+def marshalWidthGuards : List (String × Nat) := [("Date", 4), ("DateTime", 7), ("HHmm", 2)]
 end Uhppote.Gen.Types
